@@ -11,6 +11,7 @@ and their bytes are compared with the model, the main connection and an
 observer read the blobs, and after every transaction end nothing of the
 transaction may remain under the blob directory.
 """
+import itertools
 import os
 import stat
 
@@ -819,6 +820,247 @@ def undo_chain_task(kind, shape, length):
     return res
 
 
+def _open_blob_db(kind, d):
+    FS = env.mod('ZODB.FileStorage.FileStorage').FileStorage
+    MS = env.mod('ZODB.MappingStorage').MappingStorage
+    BS = env.mod('ZODB.blob').BlobStorage
+    if kind == 'Fb':
+        st = FS(os.path.join(d, 'Data.fs'), blob_dir=os.path.join(d, 'bl'))
+    elif kind == 'BF':
+        st = BS(os.path.join(d, 'bl'), FS(os.path.join(d, 'Data.fs')))
+    else:
+        st = BS(os.path.join(d, 'bl'), MS('m'))
+    return env.mod('ZODB.DB').DB(st)
+
+
+def _read_fresh(db, name):
+    import transaction
+    tmf = transaction.TransactionManager()
+    cf = db.open(tmf)
+    try:
+        root = cf.root()
+        if name not in root:
+            return None
+        return call(lambda: root[name].open('r').read())
+    finally:
+        tmf.abort()
+        cf.close()
+
+
+def multi_undo_task(kind, nrew, undone, pack):
+    """One undoMultiple of several transactions that rewrote the same blob
+    (the undoing transaction then holds several records for it), followed
+    by a pack: the blob reads back as it was before the oldest undone
+    rewrite, before and after the pack and after re-opening nothing else
+    is compared.  `undone`: indices of the rewrites undone (newest first);
+    `pack`: None, 'now', 'before-undo'."""
+    import transaction
+    from base64 import encodebytes
+    from mc import schedx
+    env.install()
+    env.reset_globals()
+    res = schedx._new_res()
+    d = env.new_dir('mu')
+    Blob = env.mod('ZODB.blob').Blob
+    UndoError = env.mod('ZODB.POSException').UndoError
+    db = _open_blob_db(kind, d)
+    wit = dict(multi_undo=dict(kind=kind, nrew=nrew, undone=list(undone),
+                               pack=pack))
+    seen = set()
+
+    def bad(c, sg, det):
+        fs = 'C13.%s:multi-undo:%s:%s' % (c, kind, sg)
+        if fs not in seen:
+            seen.add(fs)
+            res['violations'].append(('C13.' + c, fs, wit, det, 1))
+    try:
+        tm = transaction.TransactionManager()
+        c = db.open(tm)
+        b = Blob()
+        with b.open('w') as f:
+            f.write(b'v0')
+        c.root()['N'] = b
+        env.CLOCK.now += 1
+        tm.commit()
+        tids = []
+        for i in range(nrew):
+            with b.open('w') as f:
+                f.write(b'v%d' % (i + 1))
+            env.CLOCK.now += 1
+            tm.commit()
+            tids.append(db.storage.lastTransaction())
+        c.close()
+        env.CLOCK.now += 1
+        t_before_undo = env.CLOCK.now
+        env.CLOCK.now += 1
+        tmu = transaction.TransactionManager()
+        ids = [encodebytes(tids[i]).rstrip() for i in undone]
+        r = call(lambda: (db.undoMultiple(ids, tmu.get()), tmu.commit()))
+        res['cov']['transitions'] += 1
+        contiguous_top = sorted(undone) == list(
+            range(nrew - len(undone), nrew))
+        if isinstance(r, Exc):
+            tmu.abort()
+            if contiguous_top or r.name != 'UndoError':
+                bad('undo', 'refused:%s' % r.name, dict(got=repr(r)[:200]))
+            want = b'v%d' % nrew
+        else:
+            if not contiguous_top:
+                # undoing a rewrite below one that stays: blob data cannot
+                # be merged, the undo has to be refused
+                bad('undo', 'accepted-below-later-change',
+                    dict(undone=list(undone)))
+            want = b'v%d' % min(undone)
+        got = _read_fresh(db, 'N')
+        res['cov']['evaluations'] += 1
+        if got != want:
+            bad('bytes', 'after-undo', dict(expected=want,
+                                            got=repr(got)[:100]))
+        if pack:
+            env.CLOCK.now += 1
+            r = call(lambda: db.pack(
+                env.CLOCK.now if pack == 'now' else t_before_undo))
+            res['cov']['transitions'] += 1
+            if isinstance(r, Exc):
+                bad('pack', 'failed:%s' % r.name, dict(got=repr(r)[:200]))
+            got = _read_fresh(db, 'N')
+            res['cov']['evaluations'] += 1
+            if got != want:
+                bad('bytes', 'after-pack:%s' % pack,
+                    dict(expected=want, got=repr(got)[:100]))
+        res['cov']['states'] += 1
+        res['cov']['traces_validated_against_impl'] += 1
+        res['cov']['distinct_nontrivial'] += 1
+        res['outcomes']['multi-undo'] = 1
+    except Exception as e:      # noqa: B902
+        bad('error', type(e).__name__, dict(error=repr(e)[:200]))
+    finally:
+        try:
+            db.close()
+        except Exception:
+            pass
+        env.rm_dir(d)
+    return res
+
+
+def unref_task(kind, what, nsp, minimize, extra):
+    """A blob written in a transaction that takes savepoints while the
+    application keeps no reference to it: the blob sits below a committed
+    container, and the connection's cache is emptied (cacheMinimize + a
+    garbage collection, what cache pressure does on its own) before the
+    commit.  The committed blob must read back with the bytes written.
+    `what`: 'rewrite' (an existing blob) / 'create' (a new one below the
+    committed container); `nsp`: savepoints taken after the write;
+    `minimize`: where the cache is emptied ('after-sp', 'never');
+    `extra`: also modify a plain object after the savepoint."""
+    import gc
+    import transaction
+    from mc import schedx
+    env.install()
+    env.reset_globals()
+    res = schedx._new_res()
+    d = env.new_dir('ur')
+    Blob = env.mod('ZODB.blob').Blob
+    from mc import hclasses
+    db = _open_blob_db(kind, d)
+    wit = dict(unref=dict(kind=kind, what=what, nsp=nsp, minimize=minimize,
+                          extra=extra))
+    seen = set()
+
+    def bad(c, sg, det):
+        fs = 'C13.%s:unreferenced:%s:%s:%s' % (c, kind, what, sg)
+        if fs not in seen:
+            seen.add(fs)
+            res['violations'].append(('C13.' + c, fs, wit, det, 1))
+    try:
+        tm = transaction.TransactionManager()
+        c = db.open(tm)
+        box = c.root()['box'] = hclasses.P(0)
+        c.root()['p'] = hclasses.P(0)
+        b = Blob()
+        with b.open('w') as f:
+            f.write(b'old')
+        box.B = b
+        env.CLOCK.now += 1
+        tm.commit()
+        del b, box, f
+        c.cacheMinimize()
+        gc.collect()
+        # the transaction under test
+        if what == 'rewrite':
+            with c.root()['box'].B.open('w') as f:
+                f.write(b'new')
+            del f               # (the open file refers to its blob)
+            name = 'B'
+        else:
+            nb = Blob()
+            with nb.open('w') as f:
+                f.write(b'new')
+            c.root()['box'].N = nb
+            del nb, f
+            name = 'N'
+        for i in range(nsp):
+            tm.savepoint()
+            if minimize == 'after-sp':
+                c.cacheMinimize()
+                gc.collect()
+            if extra:
+                c.root()['p'].v = i + 1
+        env.CLOCK.now += 1
+        r = call(tm.commit)
+        res['cov']['transitions'] += 2 + nsp
+        if isinstance(r, Exc):
+            tm.abort()
+            bad('commit', 'failed:%s' % r.name, dict(got=repr(r)[:200]))
+        else:
+            import transaction as _t
+            tmf = _t.TransactionManager()
+            cf = db.open(tmf)
+            got = call(lambda: getattr(cf.root()['box'], name).open(
+                'r').read())
+            tmf.abort()
+            cf.close()
+            res['cov']['evaluations'] += 1
+            if got != b'new':
+                bad('bytes', 'committed-blob-unreadable',
+                    dict(expected=b'new', got=repr(got)[:120]))
+        c.close()
+        res['cov']['states'] += 1
+        res['cov']['traces_validated_against_impl'] += 1
+        res['cov']['distinct_nontrivial'] += 1
+        res['outcomes']['unreferenced'] = 1
+    except Exception as e:      # noqa: B902
+        bad('error', type(e).__name__, dict(error=repr(e)[:200]))
+    finally:
+        try:
+            db.close()
+        except Exception:
+            pass
+        env.rm_dir(d)
+    return res
+
+
+def extra_tasks(tier):
+    tasks = []
+    maxrew = 3 if tier == 'quick' else 4
+    for kind in ('Fb', 'BF'):
+        for nrew in range(2, maxrew + 1):
+            for k in range(2, nrew + 1):
+                for undone in itertools.combinations(
+                        range(nrew - 1, -1, -1), k):
+                    for pack in (None, 'now', 'before-undo'):
+                        tasks.append((MOD, 'multi_undo_task',
+                                      (kind, nrew, undone, pack)))
+    for kind in ('Fb', 'BF', 'BM'):
+        for what in ('rewrite', 'create'):
+            for nsp in (1, 2):
+                for minimize in ('after-sp', 'never'):
+                    for extra in (False, True):
+                        tasks.append((MOD, 'unref_task',
+                                      (kind, what, nsp, minimize, extra)))
+    return tasks
+
+
 def run(rep, tier, seed, workers):
     depth = 4 if tier == 'quick' else 5
     rep.rule = (
@@ -833,7 +1075,11 @@ def run(rep, tier, seed, workers):
         'savepoint holds the rewritten blob / only the plain object; the '
         'BlobStorage wrapper over FileStorage and MappingStorage one step '
         'shallower (incl. an undo that is started and aborted); chains of '
-        'undo / redo of a blob\'s creation and of a rewrite on both; after '
+        'undo / redo of a blob\'s creation and of a rewrite on both; one '
+        'undoMultiple of every set of 2+ rewrites of a blob followed by a '
+        'pack; a blob below a committed container written with 1-2 '
+        'savepoints while nothing references it and the cache is emptied; '
+        'after '
         'every '
         'step: '
         'the set, bytes and read-only mode of committed .blob files, '
@@ -875,6 +1121,9 @@ def run(rep, tier, seed, workers):
                    for k in ('Fb', 'BF') for sh in ('create', 'rewrite')],
                   workers, rep, seed)
     rep.bounds['undo / redo chain length'] = length
+    xt = extra_tasks(tier)
+    par.run_tasks(xt, workers, rep, seed)
+    rep.bounds['undoMultiple+pack and unreferenced-blob scenarios'] = len(xt)
     rep.cov['states'] = max(states, 1) + rep.cov.get('states', 0) - before
     rep.assumptions = [
         'a blob that belongs to no database (never added, or un-added) may '
@@ -885,6 +1134,17 @@ def replay(w):
     if 'undo_chain' in w['witness']:
         u = w['witness']['undo_chain']
         r = undo_chain_task(u['kind'], u['shape'], u['length'])
+        viol = [(v[0].split('.', 1)[1], v[1].split(':', 1)[1], v[3])
+                for v in r['violations']]
+    elif 'multi_undo' in w['witness'] or 'unref' in w['witness']:
+        if 'unref' in w['witness']:
+            u = w['witness']['unref']
+            r = unref_task(u['kind'], u['what'], u['nsp'], u['minimize'],
+                           u['extra'])
+        else:
+            u = w['witness']['multi_undo']
+            r = multi_undo_task(u['kind'], u['nrew'], tuple(u['undone']),
+                                u['pack'])
         viol = [(v[0].split('.', 1)[1], v[1].split(':', 1)[1], v[3])
                 for v in r['violations']]
     else:
